@@ -218,6 +218,23 @@ Proof.
   exists pre, defs, c, post. rewrite Hs. rewrite step_rhs_single by lia. reflexivity.
 Qed.
 
+(* hence the model's fall-back `RJuxt` (plain juxtaposition, not valid Rust) never occurs on parser output *)
+Theorem no_juxt cfg inp e : wf_parsed inp -> gen cfg inp = Ok e -> ~ In KJuxt (constructs e).
+Proof.
+  intros Hwf H Hin. apply gen_ok_unfold in H as [_ H].
+  apply (gen_output_okc (the_jout cfg inp) False) in H.
+  - unfold okE in H. rewrite Forall_forall in H. specialize (H _ Hin). cbn in H. tauto.
+  - intros k vars defs chains Hk Hg Hac Hne.
+    pose proof (the_jout_ok cfg inp Hwf) as Hok.
+    pose proof (gen_branches_shape _ _ _ _ _ _ _ Hg) as Hsh.
+    pose proof (step_members_active_branches _ k Hok) as Hm.
+    assert (Hl : List.length chains = active_count (the_jout cfg inp) k).
+    { rewrite <- (Forall2_len _ _ _ Hsh), <- (map_length fst), Hm. apply active_branches_length.
+      destruct Hok as (Hd & Hc & _). rewrite Hc, Hd, map_length. reflexivity. }
+    pose proof (active_count_pos (the_jout cfg inp) k Hk eq_refl) as Hpos.
+    destruct chains as [|c [|c' l]]; cbn [List.length] in Hl; try lia. exact (Hne c eq_refl).
+Qed.
+
 (* each chain is a thunk iff the effective lazy flag is on (under the spawn wrapper of the thread / task kinds) *)
 Theorem chain_thunk_iff_lazy cfg inp k b core :
   let j := the_jout cfg inp in
@@ -351,6 +368,7 @@ Proof.
 Qed.
 
 Print Assumptions joiner_once_per_multi_step.
+Print Assumptions no_juxt.
 Print Assumptions no_transpose_flow.
 Print Assumptions no_transpose_no_fail_index.
 Print Assumptions futures_path_everywhere.
